@@ -92,6 +92,10 @@ package federation
 //@   calls fn#1: requires $1 == "" && $2 == conn.local
 //@   calls fn#1: set lerr = $r
 //@   calls Conn.tryLocalThenRemotes$1#1: requires forwardedFor == "" && lerr != nil && errStatus(lerr) == 404
+//@   # an error is reported only after every remote's answer has been received
+//@   # (the collecting loop is left early only by "return nil" on a successful
+//@   # answer): a remote that fails fast cannot pre-empt an honest one
+//@   at loop 2 exit: assert i >= cap(errchan)
 
 // ------------------------------------------------------------------- C20
 // splitListRequest: fan-out to several clusters happens only for a pure
